@@ -4,7 +4,7 @@ CONSTANTS
   Size <- MCSize
   Keys <- MCKeys
   BlockSizes = {0, 5, 12, 1000}
-  MaxOps = 5
+  MaxOps = 4
 VIEW View
 INVARIANT Prefix
 INVARIANT PendingAccounted
